@@ -620,7 +620,9 @@ def twin_dirs():
     steps = head()
     for p_, d in (("pkg/alpha/LICENSE", "MIT\n"), ("pkg/beta/COPYING", "MIT\n"), ("pkg/a/marker.txt", "m\n"), ("pkg/b/marker.txt", "m\n"),
                   ("pkg/setup.txt", "setup\n"), ("LICENSE", "MIT\n"), ("lib/LICENSE", "MIT\n"), ("lib/lib.go", "package lib\n"),
-                  ("x/f", "same\n"), ("y/sub/f", "same\n"), ("docs/a.txt", "a\n"), ("docs/b.txt", "b\n"), ("main.go", "package main\n")):
+                  ("x/f", "same\n"), ("y/sub/f", "same\n"), ("docs/a.txt", "a\n"), ("docs/b.txt", "b\n"), ("main.go", "package main\n"),
+                  # the second of two identical directories directly followed by a regular file (in pkg/ a directory follows)
+                  ("q/one/m", "twin\n"), ("q/two/m", "twin\n"), ("q/zz.txt", "after the twins\n")):
         steps.append(w(p_, d))
     steps.append({"ev": "add", "paths": ["."]})
     steps.append({"ev": "writetree"})
@@ -1039,6 +1041,20 @@ def fs_corpus3():
     save("fs_corpus3", ["C16"], steps)
 
 
+def fs_corpus4():
+    """renames whose new name differs from the old one in letter case only, or is a prefix of it, for the crash enumeration"""
+    steps = head()
+    steps.append(w("a", "1"))
+    steps.append({"ev": "add", "paths": ["a"]})
+    steps.append({"ev": "commit", "msg": "one"})
+    steps.append({"ev": "branchr", "name": "Main"})
+    steps.append({"ev": "branchr", "name": "Main-old"})
+    steps.append({"ev": "branchr", "name": "Main"})
+    steps.append({"ev": "switchc", "name": "dev"})
+    steps.append({"ev": "branchr", "name": "Dev"})
+    save("fs_corpus4", ["C15"], steps)
+
+
 def symlink_names():
     """symbolic links with names that are not excluded, pointing at excluded files: add stages the link's own name"""
     steps = head()
@@ -1254,3 +1270,4 @@ if __name__ == "__main__":
     id_args()
     home_symlink()
     hash_ignore()
+    fs_corpus4()
